@@ -169,7 +169,7 @@ theorem step_refines (s : FileSt) (op : FOp) (hs : Inv s) : stepC s op = stepS s
       · simp [hc, hsame]
       · have hc' : h.closed = false := by simpa using hc
         simp only [hc', Bool.false_eq_true, if_false]
-        rcases wh with _ | _ | _ | wh <;> simp only <;> split <;> simp_all
+        split <;> simp_all
   | close i =>
     simp only [stepC, stepS]
     cases hi : s.hs[i]? with
